@@ -311,3 +311,42 @@ Proof.
   - rewrite N.sub_0_r, firstn_map. apply render_sel. now apply firstn_results_ok.
   - now apply render_sel.
 Qed.
+
+(* ------------------------------------------------------------------ argument splitting *)
+(* split_once cuts at the *first* separator: the namespace of `ns:path` and the name of `VAR=VALUE`
+   contain no separator, and nothing is lost *)
+Theorem split_once_spec : forall sep s a b,
+  split_once sep s = Some (a, b) -> s = a ++ sep :: b /\ ~ In sep a.
+Proof.
+  intros sep s. induction s as [|c s IH]; intros a b H; cbn [split_once] in H; [ discriminate | ].
+  destruct (c =? sep) eqn:E.
+  - inversion H; subst. apply N.eqb_eq in E. subst. split; [ reflexivity | intros [] ].
+  - destruct (split_once sep s) as [[a' b'] |]; [ | discriminate ]. inversion H; subst.
+    destruct (IH a' b eq_refl) as [-> Hn]. split; [ reflexivity | ].
+    intros [-> | Hin]; [ rewrite N.eqb_refl in E; discriminate | auto ].
+Qed.
+
+Theorem split_once_none : forall sep s, split_once sep s = None -> ~ In sep s.
+Proof.
+  intros sep s. induction s as [|c s IH]; cbn [split_once]; intros H; [ intros [] | ].
+  destruct (c =? sep) eqn:E; [ discriminate | ].
+  destruct (split_once sep s) as [[a b] |]; [ discriminate | ].
+  intros [-> | Hin]; [ rewrite N.eqb_refl in E; discriminate | now apply IH ].
+Qed.
+
+(* an existing file always wins over the namespace reading *)
+Theorem resolve_existing : forall ex arg, ex arg = true -> resolve_rules_arg ex arg = (None, arg).
+Proof. intros ex arg H. unfold resolve_rules_arg. now rewrite H. Qed.
+
+(* integers accepted by -d are i64 values *)
+Theorem parse_i64_range : forall s z, parse_i64 s = Some z ->
+  (-9223372036854775808 <= z <= 9223372036854775807)%Z.
+Proof.
+  intros s z. unfold parse_i64.
+  destruct (match s with 45 :: r => (true, r) | 43 :: r => (false, r) | _ => (false, s) end) as [neg body].
+  destruct body; [ discriminate | ].
+  destruct (digits_value 0 (n :: body)) as [v |]; [ | discriminate ].
+  destruct ((-9223372036854775808 <=? (if neg then (- v)%Z else v))%Z
+            && ((if neg then (- v)%Z else v) <=? 9223372036854775807)%Z) eqn:E; [ | discriminate ].
+  intros H. inversion H; subst. apply andb_true_iff in E as [E1 E2]. lia.
+Qed.
